@@ -144,22 +144,24 @@ static void h_op(void)
     h_out("ok ext=%d", NS->external ? 1 : 0);
   }
   else if (!strcmp(op, "write")) {
-    unsigned char *b; size_t n; int present, tmp;
-    char *path = NULL;
+    unsigned char *b; size_t n; int present, tmp, status2 = eslOK;
+    char *path = NULL; char again[40] = "";
     if (!NS) { h_out("bad-op"); return; }
     if (h_argi("nosort", 0)) {                  /* make sort(1) unreachable: the external sort step fails (eslESYS) */
       const char *p = getenv("PATH"); path = p ? strdup(p) : NULL; setenv("PATH", "/nonexistent-c06", 1);
     }
     status = esl_newssi_Write(NS);
     if (h_argi("nosort", 0)) { if (path) { setenv("PATH", path, 1); free(path); } else unsetenv("PATH"); }
+    if (h_argi("twice", 0)) status2 = esl_newssi_Write(NS);    /* "trying to _Write() the <ESL_NEWSSI> more than once": eslEINVAL, nothing touched */
     esl_newssi_Close(NS); NS = NULL;
     present = exists(IDX);
     tmp     = exists(IDX ".1") || exists(IDX ".2");
     b = slurp(IDX, &n);
+    if (h_argi("twice", 0)) snprintf(again, sizeof(again), " again=%s", h_status(status2));
     if (b && n <= HEXLIMIT)
-      h_out("%s file=%d tmp=%d n=%zu h=%016" PRIx64 " hex=%s", h_status(status), present, tmp, n, fnv_bytes(b, n), h_hex(b, (int64_t) n));
+      h_out("%s file=%d tmp=%d n=%zu h=%016" PRIx64 " hex=%s%s", h_status(status), present, tmp, n, fnv_bytes(b, n), h_hex(b, (int64_t) n), again);
     else
-      h_out("%s file=%d tmp=%d n=%zu h=%016" PRIx64 "%s", h_status(status), present, tmp, n, fnv_bytes(b, n), b ? "" : " hex=-");
+      h_out("%s file=%d tmp=%d n=%zu h=%016" PRIx64 "%s%s", h_status(status), present, tmp, n, fnv_bytes(b, n), b ? "" : " hex=-", again);
     free(b);
   }
   else if (!strcmp(op, "open") || !strcmp(op, "openraw")) {
